@@ -445,7 +445,7 @@ func run(ctx *common.Ctx) error {
 		Request string `json:"request"`
 	}
 
-	nMsgs := ctx.Budget(70, 600)
+	nMsgs := ctx.Budget(140, 1500)
 	bigSizes := []int{256*1024 - 300, 256 * 1024, 256*1024 + 1, 600 * 1024}
 	for mi := 0; mi < nMsgs+len(bigSizes); mi++ {
 		ascii := mi%2 == 0
@@ -758,7 +758,7 @@ func run(ctx *common.Ctx) error {
 		}
 		if crashed || status == "CLOSED" {
 			res.Fail("CRASH "+canon, "the server process died: "+detail, map[string]string{"request": "FETCH 1 (BODY.PEEK[]<" + spec + ">)"})
-			continue
+			break // the remaining pairs exercise the same addition; report the first one only
 		}
 		var o, n uint64
 		fmt.Sscanf(spec, "%d.%d", &o, &n)
